@@ -736,11 +736,17 @@ pub fn build_p(p: &P) -> BP {
 }
 
 pub fn completer(k: &CompK, v: &Val) -> Vec<(String, Option<String>)> {
-    let input = match v {
-        Val::S(t) => t.lossy(),
-        Val::N(n) => n.to_string(),
-        _ => String::new(),
-    };
+    // a completer attached above optional / many / fallback sees the wrapped value
+    fn text(v: &Val) -> String {
+        match v {
+            Val::S(t) => t.lossy(),
+            Val::N(n) => n.to_string(),
+            Val::So(x) => text(x),
+            Val::L(xs) => xs.last().map(text).unwrap_or_default(),
+            _ => String::new(),
+        }
+    }
+    let input = text(v);
     match k {
         CompK::Echo2 { descr } => vec![
             (format!("{}1", input), if *descr { Some("one".to_string()) } else { None }),
